@@ -48,6 +48,28 @@
 //! styles, 3 retained diffs, the answer-lower proxy, `X` events). A wall-clock
 //! safety net stops before a level that would not fit the budget; such a run
 //! is reported as not exhaustive with the depth that was completed.
+//!
+//! Besides the history space (`rtr.histories`) and the scale space
+//! (`rtr.scale`) there are four SEQUENCE spaces, enumerated in full without
+//! merging states, every finished client step of a sequence judged by the
+//! same three oracles against the End of Data the client consumed in it
+//! (witness `seq space=.. ops=..`, cut after the judged step; operations
+//! `J<delta>{k|d|n}{c|u}` source serial += delta mod 2^32 in the same session
+//! with the diff base kept / dropped or into a new session, data changed /
+//! unchanged · `N` notify · `SA`/`SB` client A/B steps · `SAB` both step
+//! concurrently · `XA@k` A's step future is dropped at its k-th Pending):
+//!
+//! * `rtr.serial_distance` — the serial distance between the client's stored
+//!   state and the state End of Data names (+1, +2, 2^31-1, 2^31, 2^31+1, -2,
+//!   -1, sums of two; across 0 and 2^31; backwards; same serial in a new
+//!   session) over three rounds from four root serials;
+//! * `rtr.two_clients` — two clients on one `Server::run`, interleaved and
+//!   concurrent;
+//! * `rtr.rejecting_target` — every `push_update` / `apply` call in turn
+//!   returns an error, then retry / reconnect: what the rejected step left
+//!   behind must not spoil a later finished step;
+//! * `rtr.abandoned_step` — the step future dropped while Pending at every
+//!   await point (narrow pipes: inside PDUs), then stepped again.
 
 use std::cell::RefCell;
 use std::collections::{BTreeMap, BTreeSet, HashSet};
@@ -844,7 +866,9 @@ impl Socket for Sock {
 
 /// Client-side socket: counts the octets the client has consumed so that the
 /// unread rest of the pipe (pending Serial Notify PDUs) is observable.
-struct CSock { io: Link, consumed: Arc<AtomicU64> }
+struct CSock { io: Link, consumed: Arc<AtomicU64>,
+    /// octets the client has written (has a query, or part of one, left the client?)
+    sent: Arc<AtomicU64> }
 
 impl AsyncRead for CSock {
     fn poll_read(self: Pin<&mut Self>, cx: &mut Context<'_>, buf: &mut ReadBuf<'_>) -> Poll<std::io::Result<()>> {
@@ -859,7 +883,10 @@ impl AsyncRead for CSock {
 }
 impl AsyncWrite for CSock {
     fn poll_write(self: Pin<&mut Self>, cx: &mut Context<'_>, buf: &[u8]) -> Poll<std::io::Result<usize>> {
-        Pin::new(&mut self.get_mut().io.wr).poll_write(cx, buf)
+        let me = self.get_mut();
+        let r = Pin::new(&mut me.io.wr).poll_write(cx, buf);
+        if let Poll::Ready(Ok(n)) = r { me.sent.fetch_add(n as u64, Ordering::Relaxed); }
+        r
     }
     fn poll_flush(self: Pin<&mut Self>, cx: &mut Context<'_>) -> Poll<std::io::Result<()>> {
         Pin::new(&mut self.get_mut().io.wr).poll_flush(cx)
@@ -1334,6 +1361,7 @@ struct Conn {
     client: Client<CSock, Target>,
     obs: Arc<Mutex<Obs>>,
     consumed: Arc<AtomicU64>,
+    sent: Arc<AtomicU64>,
     ok_steps: u64,
 }
 
@@ -1376,11 +1404,12 @@ async fn connect_via(hub: Option<&Hub>, cfg: &Cfg, src: &Source, notify: &Notify
             tokio::spawn(Server::new(listener, notify.clone(), src.clone()).run());
         }
     }
-    let sock = CSock { io: c_end, consumed: consumed.clone() };
+    let sent = Arc::new(AtomicU64::new(0));
+    let sock = CSock { io: c_end, consumed: consumed.clone(), sent: sent.clone() };
     let client = if cfg.uses_default_ctor() { Client::new(sock, target, state) }
         else { Client::with_initial_version(cfg.civ, sock, target, state) };
     settle().await;
-    Conn { client, obs, consumed, ok_steps: 0 }
+    Conn { client, obs, consumed, sent, ok_steps: 0 }
 }
 
 fn initial_source(cfg: &Cfg) -> SrcInner {
@@ -1486,7 +1515,7 @@ async fn exec_async(cfg: Cfg, hist: Vec<Ev>) -> Exec {
             Ev::ErrorReport => {
                 // `send_error(e)` and `apply(an update the target rejects with e)`
                 // are siblings: both must put the same Error Report on the wire
-                // and leave state and data alone. The server hangs up on an
+                // and leave the data alone and the state alone or forgotten. The server hangs up on an
                 // Error Report, so each gets its own connection.
                 const KINDS: [PayloadError; 4] = [PayloadError::Corrupt, PayloadError::Internal,
                     PayloadError::UnknownWithdraw, PayloadError::DuplicateAnnounce];
@@ -1543,7 +1572,9 @@ async fn exec_async(cfg: Cfg, hist: Vec<Ev>) -> Exec {
                     verdicts.push(("C06.api.send_error", format!("send_error({kind:?}) on a connection that negotiated version {negotiated_version:?} put {:?} on the wire, on a fresh connection {:?}",
                         brief(&wire[0]), brief(&wire[1]))));
                 }
-                if state_after != state_before || data_after != data_before {
+                // (forgetting the state is always safe: it only makes the next query a
+                // reset query; a client whose target rejected an update may do so)
+                if (state_after != state_before && state_after.is_some()) || data_after != data_before {
                     verdicts.push(("C06.api.send_error", format!("reporting {kind:?} changed the client: state {state_before:?} -> {state_after:?}, data {} -> {}", data_before.render(), data_after.render())));
                 }
                 steps.push(StepObs { result: StepResult::Err(format!("client reported {kind:?} (send_error -> {}, apply -> {})", returns[1], returns[2])),
@@ -1758,8 +1789,25 @@ async fn exec_async(cfg: Cfg, hist: Vec<Ev>) -> Exec {
     Exec { key, key_hash, label, key_before_last, abs, steps, last_is_step, panics: Vec::new(), machinery, odd_ops, api_faults }
 }
 
+/// An OS thread of its own for one execution: whatever the library might
+/// keep per thread (scratch buffers, memos) starts empty, so the execution
+/// depends on its own history only — not on what the worker thread ran
+/// before. Far too slow for every execution (thread creation dominates); it
+/// is the referee wherever two executions of one history disagree and for
+/// every violation before it is reported (`C06.history.independent`).
+fn on_fresh_thread<T: Send>(f: impl FnOnce() -> T + Send) -> T {
+    std::thread::scope(|s| {
+        match std::thread::Builder::new().stack_size(1 << 20).spawn_scoped(s, f) {
+            Ok(h) => match h.join() { Ok(v) => v, Err(e) => panic::resume_unwind(e) },
+            Err(e) => panic!("cannot spawn a thread: {e}"),
+        }
+    })
+}
+
 /// Runs one history on fresh objects. A panic anywhere (client step, server
 /// task, harness) is reported in `Err`.
+fn exec_fresh(cfg: &Cfg, hist: &[Ev]) -> Result<Exec, Vec<String>> { on_fresh_thread(|| exec(cfg, hist)) }
+
 fn exec(cfg: &Cfg, hist: &[Ev]) -> Result<Exec, Vec<String>> {
     PANICS.with(|p| p.borrow_mut().clear());
     let (cfg2, hist2) = (*cfg, hist.to_vec());
@@ -1893,7 +1941,7 @@ async fn scale_async(case: ScaleCase) -> ScaleOutcome {
     let (c_end, s_end) = link(1 << 16, 1 << 16);
     let listener = futures_util::stream::iter(vec![Ok::<Sock, std::io::Error>(Sock { io: s_end, obs })]);
     tokio::spawn(Server::new(listener, NotifySender::new(), src).run());
-    let sock = CSock { io: c_end, consumed: Arc::new(AtomicU64::new(0)) };
+    let sock = CSock { io: c_end, consumed: Arc::new(AtomicU64::new(0)), sent: Arc::new(AtomicU64::new(0)) };
     let mut client = Client::with_initial_version(case.version, sock, Target { data: prev, ..Default::default() }, state);
     settle().await;
     let res = tokio::time::timeout(HORIZON, client.step()).await;
@@ -2256,16 +2304,20 @@ struct SeqStep {
     verdicts: Vec<(&'static str, String)>,
     /// what the failure injection hit during this step
     fired: Option<String>,
+    /// the client wrote at least one octet during the step
+    wrote: bool,
+    /// the connection was in step with the server when the step began
+    judged: bool,
 }
 
 #[derive(Clone, Debug, PartialEq, Eq)]
 struct SeqOut { steps: Vec<SeqStep>, machinery: Vec<String>, api_faults: Vec<String>, pushes: u32, applies: u32 }
 
-struct Pre { m_c2s: usize, consumed: u64, state: Option<(u16, u32)>, data: Data }
+struct Pre { m_c2s: usize, consumed: u64, sent: u64, state: Option<(u16, u32)>, data: Data }
 
 fn seq_pre(conn: &mut Conn) -> Pre {
     conn.client.target_mut().applied.clear();
-    Pre { m_c2s: conn.obs.lock().unwrap().c2s.len(), consumed: conn.consumed.load(Ordering::Relaxed),
+    Pre { m_c2s: conn.obs.lock().unwrap().c2s.len(), consumed: conn.consumed.load(Ordering::Relaxed), sent: conn.sent.load(Ordering::Relaxed),
         state: conn.client.state().map(|s| (s.session(), s.serial().0)), data: conn.client.target().data.clone() }
 }
 
@@ -2287,7 +2339,7 @@ fn distance_class(d: Option<u32>, had_state: bool, same_session: bool) -> String
 /// the step (after an abandoned step octets of an earlier response may still
 /// be in the pipe; whatever the client takes for its answer, the clauses
 /// speak about the End of Data it took).
-fn seq_judge(op: usize, who: u8, src: &Source, conn: &Conn, pre: &Pre, result: StepResult, cancelled: bool, pendings: u16) -> SeqStep {
+fn seq_judge(op: usize, who: u8, src: &Source, conn: &Conn, pre: &Pre, result: StepResult, cancelled: bool, pendings: u16, in_sync: bool) -> SeqStep {
     let s = src.0.lock().unwrap();
     let o = conn.obs.lock().unwrap();
     let consumed = conn.consumed.load(Ordering::Relaxed);
@@ -2346,7 +2398,15 @@ fn seq_judge(op: usize, who: u8, src: &Source, conn: &Conn, pre: &Pre, result: S
             }
         }
     }
-    let class = if cancelled { format!("step:abandoned-while-pending:{kind}") } else {
+    // A connection on which a query went out whose response was not consumed
+    // to its end (the step was abandoned, or failed) is out of step for good:
+    // RTR has no way to tell which query a response answers. What finishes
+    // there is counted, with the verdict it would have got, but not judged.
+    let class = if cancelled { format!("step:abandoned-while-pending:{kind}") } else if !in_sync && finished {
+        let c = format!("step:ok-on-desynchronised-connection(not judged):{}", if verdicts.is_empty() { "as-the-source" } else { "NOT-as-the-source" });
+        verdicts.clear();
+        c
+    } else {
         match &result {
             StepResult::Ok => format!("step:ok:{kind}:distance={}", distance_class(distance, pre.state.is_some(), distance.is_some())),
             StepResult::Err(m) => format!("step:err:{}", rpki_verif::trunc(m, 60)),
@@ -2354,7 +2414,7 @@ fn seq_judge(op: usize, who: u8, src: &Source, conn: &Conn, pre: &Pre, result: S
         }
     };
     let changed = state_after != pre.state || *data_after != pre.data;
-    SeqStep { op, who, result, cancelled, pendings, class, transcript, changed, distance, verdicts, fired: None }
+    SeqStep { op, who, result, cancelled, pendings, class, transcript, changed, distance, verdicts, fired: None, wrote: conn.sent.load(Ordering::Relaxed) > pre.sent, judged: in_sync }
 }
 
 fn step_result(r: Result<Option<Result<(), std::io::Error>>, tokio::time::error::Elapsed>) -> (StepResult, bool) {
@@ -2400,6 +2460,9 @@ async fn seq_async(scn: Scn) -> SeqOut {
     }
     // a connection on which a step has failed or was abandoned
     let mut tainted = vec![false; conns.len()];
+    // ... and on which a query (or part of one) had gone out by then: its
+    // response is still on the way or half read
+    let mut desync = vec![false; conns.len()];
     let mut steps: Vec<SeqStep> = Vec::new();
     let mut machinery: Vec<String> = Vec::new();
     for (idx, op) in scn.ops.iter().enumerate() {
@@ -2425,7 +2488,7 @@ async fn seq_async(scn: Scn) -> SeqOut {
                 };
                 settle().await;
                 let (result, cancelled) = step_result(r);
-                let mut st = seq_judge(idx, i as u8, &src, &conns[i], &pre, result, cancelled, seen);
+                let mut st = seq_judge(idx, i as u8, &src, &conns[i], &pre, result, cancelled, seen, !desync[i]);
                 if i == 0 { st.fired = ctl.lock().unwrap().fired.take() }
                 steps.push(st);
                 stepped.push(i);
@@ -2444,7 +2507,7 @@ async fn seq_async(scn: Scn) -> SeqOut {
                 settle().await;
                 for (i, (r, n)) in [(r0, n0), (r1, n1)].into_iter().enumerate() {
                     let (result, cancelled) = step_result(r);
-                    steps.push(seq_judge(idx, i as u8, &src, &conns[i], &pre[i], result, cancelled, n));
+                    steps.push(seq_judge(idx, i as u8, &src, &conns[i], &pre[i], result, cancelled, n, !desync[i]));
                     stepped.push(i);
                 }
             }
@@ -2456,6 +2519,7 @@ async fn seq_async(scn: Scn) -> SeqOut {
             let bad = st.cancelled || st.result != StepResult::Ok;
             let reconnect = closed_by_peer || (bad && (scn.cont == Cont::Reconnect || tainted[i]));
             if bad { tainted[i] = true }
+            if bad && (st.wrote || !st.cancelled) { desync[i] = true }
             if reconnect {
                 let state = conns[i].client.state();
                 let old = conns.remove(i);
@@ -2464,6 +2528,7 @@ async fn seq_async(scn: Scn) -> SeqOut {
                 let c = connect_via(Some(&hub), &cfgs[i], &src, &notify, target, state).await;
                 conns.insert(i, c);
                 tainted[i] = false;
+                desync[i] = false;
             } else if !bad {
                 conns[i].ok_steps += 1;
             }
@@ -2482,6 +2547,8 @@ async fn seq_async(scn: Scn) -> SeqOut {
     let c = ctl.lock().unwrap();
     SeqOut { steps, machinery, api_faults, pushes: c.pushes, applies: c.applies }
 }
+
+fn seq_exec_fresh(scn: &Scn) -> Result<SeqOut, Vec<String>> { on_fresh_thread(|| seq_exec(scn)) }
 
 fn seq_exec(scn: &Scn) -> Result<SeqOut, Vec<String>> {
     PANICS.with(|p| p.borrow_mut().clear());
@@ -2540,7 +2607,7 @@ fn seq_run(scn: &Scn, nontrivial: impl Fn(&SeqOut) -> bool) -> (SeqTally, Option
             for s in &out.steps {
                 *t.outcomes.entry(s.class.clone()).or_insert(0) += 1;
                 t.max_pendings = t.max_pendings.max(s.pendings);
-                let finished = s.result == StepResult::Ok && !s.cancelled;
+                let finished = s.result == StepResult::Ok && !s.cancelled && s.judged;
                 if finished {
                     t.ok_steps += 1;
                     if bad_before[s.who as usize] { t.ok_after_bad += 1 }
@@ -2565,8 +2632,37 @@ fn seq_report(ctx: &Ctx, sp: &rpki_verif::Space, t: SeqTally, min_ok: u64, bound
     for m in t.machinery.iter().take(5) { ctx.machinery_error(m.clone()) }
     // scenarios share prefixes: one judged step is reported once
     let mut seen: BTreeSet<(&'static str, String)> = BTreeSet::new();
-    for (o, w, d) in t.viols { if seen.insert((o, w.clone())) { ctx.fail(o, w, d) } }
+    let mut viols = t.viols;
+    viols.sort_by(|a, b| (a.1.len(), &a.1, a.0).cmp(&(b.1.len(), &b.1, b.0)));   // shortest witness first
+    if let Some(path) = std::env::var_os("C06_DUMP") {   // debugging aid: every violation of the sequence spaces, one per line
+        use std::io::Write;
+        if let Ok(mut f) = std::fs::OpenOptions::new().create(true).append(true).open(path) {
+            for (o, w, _) in &viols { let _ = writeln!(f, "{o}\t{w}"); }
+        }
+    }
+    // Referee: the first few violating sequences once more, each on a fresh OS
+    // thread. A sequence that is judged fine there was spoilt by what its
+    // worker thread had executed before — state kept per thread by the
+    // library; it is reported as such, with the sequence that showed it.
+    let mut refereed = 0;
+    for (o, w, d) in viols {
+        if !seen.insert((o, w.clone())) { continue }
+        if refereed < 12 {
+            refereed += 1;
+            if let Some(scn) = Scn::parse(&w) {
+                let again = seq_exec_fresh(&scn);
+                let confirmed = match &again { Err(_) => o == "C06.step.no_panic", Ok(out) => o == "C06.api.accessors" && !out.api_faults.is_empty()
+                    || out.steps.iter().any(|s| s.verdicts.iter().any(|(o2, _)| *o2 == o)) };
+                if !confirmed {
+                    ctx.fail("C06.history.independent", w, format!("executed first thing on a fresh thread this sequence is judged fine; executed on a thread that had run other sequences before: {o}: {d}"));
+                    continue;
+                }
+            }
+        }
+        ctx.fail(o, w, d)
+    }
     if t.ok_steps < min_ok { ctx.machinery_error(format!("vacuous: only {} client steps finished in a sequence space", t.ok_steps)) }
+    if t.nontrivial == 0 { ctx.machinery_error(format!("vacuous: no non-trivial sequence in a sequence space ({bound})")) }
     if let Some(s) = t.sample { sp.sample_str(|| s) }
     sp.set("finished_client_steps_judged", json!(t.ok_steps));
     sp.set("finished_steps_after_a_rejected_or_abandoned_step", json!(t.ok_after_bad));
@@ -2668,7 +2764,7 @@ fn distance_space(ctx: &Ctx, thorough: bool) {
     scns.retain(|s| !s.reuses_a_state());
     let left_out = before - scns.len();
     let tally = scns.par_iter().map(|scn| seq_run(scn, |out| {
-        let fin: Vec<&SeqStep> = out.steps.iter().filter(|s| s.result == StepResult::Ok && !s.cancelled).collect();
+        let fin: Vec<&SeqStep> = out.steps.iter().filter(|s| s.result == StepResult::Ok && !s.cancelled && s.judged).collect();
         fin.len() >= 2 && fin.iter().any(|s| s.distance.is_some_and(|d| d > 1))
     }).0).reduce(SeqTally::default, |mut a, b| { a.absorb(b); a });
     sp.set("sequences_left_out(source would reuse a state)", json!(left_out));
@@ -2682,12 +2778,12 @@ fn distance_space(ctx: &Ctx, thorough: bool) {
 fn pair_space(ctx: &Ctx, thorough: bool) {
     let len = if thorough { 5 } else { 4 };
     let sp = ctx.space("rtr.two_clients",
-        "two real clients A and B, each over its own connection (own proxy, own pipes) to ONE real Server::run with one NotifySender and one source, on one thread: every sequence of length 4 [thorough: 5] over {source update with the diff base kept; with all diff bases dropped; into a new session; notify; A steps; B steps; A and B step concurrently (join!, interleaved at every await point)} that contains a client step, for the initial versions (A, B) in 0..2 x 0..2, A current or without state at the root, B current, over roomy pipes and a 7-octet server->client pipe; every finished step of either client is judged by the three clauses against the End of Data it consumed; non-trivial = sequences in which both clients finished a step that changed their state or data");
+        "two real clients A and B, each over its own connection (own proxy, own pipes) to ONE real Server::run with one NotifySender and one source, on one thread: every sequence of length 4 [thorough: 5] over {source update with the diff base kept; with all diff bases dropped; into a new session; notify; A steps; B steps; A and B step concurrently (join!, interleaved at every await point) ; A's step abandoned at its 1st / 3rd Pending} that contains a client step, for the initial versions (A, B) in 0..2 x 0..2, A current or without state at the root, B current, over roomy pipes and a 7-octet server->client pipe; every finished step of either client is judged by the three clauses against the End of Data it consumed; non-trivial = sequences in which both clients finished a step that changed their state or data");
     let alphabet = [
         SOp::Jump { delta: 1, keep: true, new_session: false, change: true },
         SOp::Jump { delta: 1, keep: false, new_session: false, change: true },
         SOp::Jump { delta: 1, keep: false, new_session: true, change: true },
-        SOp::Notify, SOp::Step(0), SOp::Step(1), SOp::Both,
+        SOp::Notify, SOp::Step(0), SOp::Step(1), SOp::Both, SOp::Cancel(0, 1), SOp::Cancel(0, 3),
     ];
     let mut seqs: Vec<Vec<SOp>> = vec![vec![]];
     for _ in 0..len {
@@ -2704,11 +2800,11 @@ fn pair_space(ctx: &Ctx, thorough: bool) {
             let (ra, rb) = ([Route::Step, Route::UpdateApply][n % 2], [Route::Step, Route::UpdateApply, Route::ResetApply][(n / 2) % 3]);
             scns.push(Scn { space: "pair", base: 1000, style: Style::Chained, order, link,
                 clients: vec![SClient { civ: va, limit: 2, route: ra, current: a_current }, SClient { civ: vb, limit: 2, route: rb, current: true }],
-                ops: ops.clone(), fail: None, cont: Cont::Reconnect });
+                ops: ops.clone(), fail: None, cont: [Cont::Reconnect, Cont::SameConn][(n / 6) % 2] });
         }
     }}}}
     let tally = scns.par_iter().map(|scn| seq_run(scn, |out| {
-        (0..2u8).all(|w| out.steps.iter().any(|s| s.who == w && s.result == StepResult::Ok && s.changed))
+        (0..2u8).all(|w| out.steps.iter().any(|s| s.who == w && s.result == StepResult::Ok && !s.cancelled && s.judged && s.changed))
     }).0).reduce(SeqTally::default, |mut a, b| { a.absorb(b); a });
     let n = scns.len();
     seq_report(ctx, &sp, tally, 1000, &format!("{n} sequences of length {len}, every one executed"));
@@ -2739,7 +2835,7 @@ fn failure_space(ctx: &Ctx, thorough: bool) {
     }}}
     let fired_then_ok = |out: &SeqOut| {
         let at = out.steps.iter().position(|s| s.fired.is_some());
-        at.is_some_and(|p| out.steps[p + 1..].iter().any(|s| s.result == StepResult::Ok))
+        at.is_some_and(|p| out.steps[p + 1..].iter().any(|s| s.result == StepResult::Ok && !s.cancelled && s.judged))
     };
     let tally = bases.par_iter().map(|base| {
         let (mut t, clean) = seq_run(base, |_| false);
@@ -2762,28 +2858,30 @@ fn failure_space(ctx: &Ctx, thorough: bool) {
 /// `rtr.abandoned_step`.
 fn cancel_space(ctx: &Ctx, thorough: bool) {
     let sp = ctx.space("rtr.abandoned_step",
-        "a client step whose future is dropped while Pending, at EVERY await point: for every sequence root . (gap . client step) x 3 . step . step (gaps as in rtr.rejecting_target without the new session [thorough: with]) the step of round 1, 2 or 3 is polled until it has returned Pending k times and is then dropped, for k = 1, 2, ... until the step completes before the k-th Pending; transports: roomy pipes (await points between PDUs), server->client pipes of 16 and 7 octets (inside PDUs), client->server pipe of 7 octets (inside the query) [thorough: + 1-octet pipes]; versions 2/2 and 1/1 [thorough: + 0/0, 2/0]; routes step and reset+apply; afterwards the client is stepped again on the same connection (reconnect when that fails) or reconnected at once with client.state() and the target; every later finished step is judged by the three clauses against the End of Data the client consumed in it; non-trivial = sequences in which the step really was dropped while Pending and a later step finished");
-    let gaps: Vec<Vec<SOp>> = if thorough { plain_gaps() } else { plain_gaps()[..3].to_vec() };
-    let links: Vec<Transport> = if thorough { vec![Transport::Roomy, Transport::S16, Transport::S7, Transport::C7, Transport::S1C1] }
+        "a client step whose future is dropped while Pending, at EVERY await point: for every sequence root . (gap . client step) x 3 . step . step (gaps as in rtr.rejecting_target; client current or without state at the root) the step of round 1, 2 or 3 is polled until it has returned Pending k times and is then dropped, for k = 1, 2, ... until the step completes before the k-th Pending; transports: roomy pipes (await points between PDUs), server->client pipes of 16 and 7 octets (inside PDUs), client->server pipe of 7 octets (inside the query) [thorough: + 12-octet and 1-octet pipes]; versions 2/2, 1/1, 0/0, 2/0 [quick: narrow pipes with 2/2 and 1/1 only; thorough: + 2/1, 1/0; the 1-octet pipes with 2/2 and 1/1 only]; routes step and reset+apply; afterwards the client is stepped again on the same connection (reconnect when that fails) or reconnected at once with client.state() and the target; every later finished step is judged, except on a connection that is out of step with the server (a query had gone out before the step was abandoned; such steps are counted with the verdict they would get, class step:ok-on-desynchronised-connection, see the assumptions) — by the three clauses against the End of Data the client consumed in it; non-trivial = sequences in which the step really was dropped while Pending and a later step finished");
+    let gaps: Vec<Vec<SOp>> = plain_gaps();
+    let links: Vec<Transport> = if thorough { vec![Transport::Roomy, Transport::S16, Transport::S12, Transport::S7, Transport::C7, Transport::S1C1] }
         else { vec![Transport::Roomy, Transport::S16, Transport::S7, Transport::C7] };
-    let versions: Vec<(u8, u8)> = if thorough { vec![(2, 2), (1, 1), (0, 0), (2, 0)] } else { vec![(2, 2), (1, 1)] };
+    let versions: Vec<(u8, u8)> = if thorough { vec![(2, 2), (1, 1), (0, 0), (2, 0), (2, 1), (1, 0)] } else { vec![(2, 2), (1, 1), (0, 0), (2, 0)] };
     let mut bases: Vec<(Scn, usize)> = Vec::new();
-    for &(civ, limit) in &versions { for &link in &links { for route in [Route::Step, Route::ResetApply] { for cont in [Cont::SameConn, Cont::Reconnect] {
-        // the narrow pipes multiply the await points: they get the 2/2 configuration only (quick)
-        if !thorough && link != Transport::Roomy && (civ, limit) != (2, 2) { continue }
+    for &(civ, limit) in &versions { for &link in &links { for route in [Route::Step, Route::ResetApply] { for cont in [Cont::SameConn, Cont::Reconnect] { for current in [true, false] {
+        // the narrow pipes multiply the await points: quick gives them the 2/2 and 1/1 configurations and a client with state only
+        if !thorough && link != Transport::Roomy && (civ < 1 || limit < 1 || !current) { continue }
+        // ... and the 1-octet pipes most of all (hundreds per step): 2/2 and 1/1, client with state
+        if link == Transport::S1C1 && (civ != limit || civ < 1 || !current) { continue }
         for a in &gaps { for b in &gaps { for c in &gaps {
             let mut ops = rounds(&[a, b, c]); ops.push(SOp::Step(0)); ops.push(SOp::Step(0));
             let step_at: Vec<usize> = ops.iter().enumerate().filter(|(_, o)| o.is_step()).map(|(i, _)| i).collect();
             for r in 0..3 {
                 bases.push((Scn { space: "cancel", base: 1000, style: Style::Net, order: ORDERS[(civ as usize + r) % 3], link,
-                    clients: vec![SClient { civ, limit, route, current: true }], ops: ops.clone(), fail: None, cont }, step_at[r]));
+                    clients: vec![SClient { civ, limit, route, current }], ops: ops.clone(), fail: None, cont }, step_at[r]));
             }
         }}}
-    }}}}
+    }}}}}
     const K_MAX: u16 = 2000;
     let dropped_then_ok = |out: &SeqOut| {
         let at = out.steps.iter().position(|s| s.cancelled);
-        at.is_some_and(|p| out.steps[p + 1..].iter().any(|s| s.result == StepResult::Ok && !s.cancelled))
+        at.is_some_and(|p| out.steps[p + 1..].iter().any(|s| s.result == StepResult::Ok && !s.cancelled && s.judged))
     };
     let tally = bases.par_iter().map(|(base, at)| {
         let mut t = SeqTally::default();
@@ -2887,6 +2985,7 @@ fn main() {
     ctx.assume("tokio (current-thread runtime, paused clock, io::duplex, broadcast) is trusted");
     ctx.assume("rtr.histories only: session ids and serial numbers are opaque tokens to client and server (compared and copied, never computed with); its canonical key keeps only their relations and the position relative to the 2^32 wrap. The assumption is not made by rtr.serial_distance, which enumerates the serial distance between the client's stored state and the End-of-Data state (small, half the circle, backwards, across 0 and 2^31) over three judged steps without merging states");
     ctx.assume("a connection is not used again after a step returned Err (Client::run stops there); the harness reconnects with client.state() and the target, as the Client::new documentation prescribes");
+    ctx.assume("sequence spaces: a connection on which a query (or part of one) went out whose response was not consumed to its end - the step failed, or its future was dropped while Pending - is out of step with the server for good (RTR cannot tell which query a response answers). Steps that finish on such a connection are executed and counted with the verdict they would get (outcome class step:ok-on-desynchronised-connection) but not judged; judging resumes when the harness has reconnected. A step abandoned BEFORE any octet of its query went out (during the refresh wait) leaves the connection in step: the same connection is judged on");
     ctx.assume("the version-limited peer is played by a proxy in front of the real server: it answers a too-high first query with Error Report code 4 in its own version (mode error) or answers in its own lower version (mode lower)");
 
     let thorough = ctx.tier.is_thorough();
@@ -3054,6 +3153,7 @@ fn main() {
     }
     sp.sample_str(|| format!("root: {}", roots[2].render()));
 
+    let (mut diverged, mut thread_dependent) = (0u64, 0u64);
     let mut max_depth = 0usize;
     let mut completed_depth = 0usize;
     let mut cut = "depth bound";
@@ -3102,7 +3202,26 @@ fn main() {
             }
             for m in &r.machinery { ctx.machinery_error(format!("{}: {m}", witness(&n.cfg, &hist()))) }
             if !r.prefix_ok {
-                ctx.machinery_error(format!("replay diverged: prefix of {} does not reach the recorded state", witness(&n.cfg, &hist())));
+                // The prefix was executed before, on some other worker thread, and
+                // reached another state then. Referee: the prefix twice more, each
+                // on a fresh OS thread. If those two agree, the executions are
+                // deterministic and the difference comes from what the worker
+                // threads had executed before: the library keeps state outside
+                // client, server and their arguments — a violation, not a fault of
+                // the machinery. (Refereed for the first few; the rest follow.)
+                diverged += 1;
+                if diverged <= 5 {
+                    let a = exec_fresh(&n.cfg, &n.hist).map(|e| e.key_hash);
+                    let b = exec_fresh(&n.cfg, &n.hist).map(|e| e.key_hash);
+                    st.executions += 2;
+                    if a == b { thread_dependent += 1 }
+                    else { ctx.machinery_error(format!("replay diverged: prefix of {} does not reach the recorded state, and does not reach one state on fresh threads either", witness(&n.cfg, &hist()))) }
+                }
+                if thread_dependent > 0 && thread_dependent == diverged.min(5) {
+                    ctx.fail("C06.history.independent", witness(&n.cfg, &n.hist), format!("this history reached different client/source states in two executions although each execution builds all its objects anew; on fresh OS threads it is deterministic: the outcome depends on what the executing thread ran before (state kept outside the client, the server and their arguments)"));
+                } else if diverged > 5 {
+                    ctx.machinery_error(format!("replay diverged: prefix of {} does not reach the recorded state", witness(&n.cfg, &hist())));
+                }
             }
             let mut violated = false;
             for f in &r.api_faults {
@@ -3160,8 +3279,8 @@ fn main() {
     let first_step_node = first_step_node.or_else(|| roots.first().map(|c| (*c, vec![Ev::Step, Ev::Update(0), Ev::Step])));
     let last_new_node = last_new_node.or_else(|| roots.last().map(|c| (*c, vec![Ev::Update(6), Ev::Notify, Ev::Step])));
     for cand in [first_step_node.clone(), last_new_node.clone()].into_iter().flatten() {
-        let a = exec(&cand.0, &cand.1);
-        let b = exec(&cand.0, &cand.1);
+        let a = exec_fresh(&cand.0, &cand.1);
+        let b = exec_fresh(&cand.0, &cand.1);
         st.executions += 2;
         det_checked += 1;
         if a != b {
@@ -3216,7 +3335,7 @@ fn main() {
     sp.set("ok_steps_by_transport_and_version", json!(st.ok_by_link));
     sp.set("events", json!(["U<S> update (diff retained)", "X<S> update (diff history dropped)", "D drop diffs", "R restart (new session)", "W serial := 2^32-1", "N notify", "S client step", "C<k> client step, connection dies after k PDUs of the response", "M<k>:<S> client step, source moves to set S on entry to the k-th call the server makes on it (ready/notify/full/diff/timing)",
         "L<S> Client::run until the peer closes the connection after two completed updates, source moves to set S between them; every completed update judged",
-        "E Client::send_error(e) and Client::apply(update rejected with e) on a connection each: same Error Report on the wire, client unchanged"]));
+        "E Client::send_error(e) and Client::apply(update rejected with e) on a connection each: same Error Report on the wire, data unchanged, state unchanged or forgotten"]));
     sp.set("bounds", json!({"pending_notifies": MAX_PENDING_NOTIFY, "connection_cut_after_pdus": CUTS, "mid_step_update_at_source_call": MID_CALLS, "simulated_horizon_s": HORIZON.as_secs()}));
     sp.set("distinct_outcomes(step transcripts)", json!(st.transcripts.len()));
     sp.set("ok_steps_by_version_config", json!(st.ok_by_pair));
